@@ -181,7 +181,7 @@ def run(ctx):
         key_whole.add(n.targets[0].id)
   for n in walk_local(ps.node):
     if isinstance(n, ast.Call) and u(n.func) == 'BindingStatement':
-      a = positional_args(ctx.ix, n)
+      a = positional_args(ctx.ix, n) if n.keywords else list(n.args)
       if a is None:
         continue
       if key_parts and len(a) >= 4 and [u(x) for x in a[:3]] == key_parts and u(a[3]) == 'value':
